@@ -61,10 +61,13 @@ Definition eig_diag (n : nat) (d : nat -> R) (k : Z) (wh : which) : option eout 
 (* compute_lower_triangular_eigvecs(L) (eigs.py:164-171): column i solves (L[:i,:i] - L[i,i] I) x = -L[:i,i];
    [solve k A b] stands for np.linalg.solve on a k x k system *)
 Variable solve : nat -> fm -> (nat -> R) -> (nat -> R).
+(* the vectors are written into np.eye(n), a float64 buffer: [cast] is the conversion numpy applies on assignment
+   (the identity for real data; complex solutions lose their imaginary part) *)
+Variable cast : R -> R.
 Definition tri_sys (L : fm) (i : nat) : fm := fun a b => L a b - L i i * delta a b.
 Definition tri_rhs (L : fm) (i : nat) : nat -> R := fun a => - L a i.
 Definition tri_eigvecs (L : fm) : fm :=
-  fun r i => if (r <? i)%nat then solve i (tri_sys L i) (tri_rhs L i) r else delta r i.
+  fun r i => if (r <? i)%nat then cast (solve i (tri_sys L i) (tri_rhs L i) r) else delta r i.
 Definition eig_tri (n : nat) (L : fm) (k : Z) (wh : which) : option eout :=
   let vals := fun i => L i i in
   let idx := argsort n vals in
